@@ -95,10 +95,12 @@ def evaluate(case):
             import copy
             target = sorted(d for d in tree["dirs"] if not d.startswith("_out"))[0]
             os.symlink(target, os.path.join(inp, "zz_alias"))
+            os.symlink(target, os.path.join(inp, "zz_alias2"))       # two links, adjacent in sorted listings
             res.labels.append("symlinked-directory:" + alias)
             if alias == "follow":
                 # followed links are ordinary directories with the target's content; links not followed are not processed
-                tree = {"files": tree["files"], "dirs": dict(tree["dirs"], zz_alias=copy.deepcopy(tree["dirs"][target]))}
+                tree = {"files": tree["files"], "dirs": dict(tree["dirs"], zz_alias=copy.deepcopy(tree["dirs"][target]),
+                                                              zz_alias2=copy.deepcopy(tree["dirs"][target]))}
         cwd = sb.path("cwd")
         if case["outloc"] == "abs":
             out_arg, out_abs = sb.path("out"), sb.path("out")
